@@ -70,8 +70,13 @@ def coq_case(case, impl):
 
 # ------------------------------------------------------------------ renderer
 
-def _attrs(ats):
-    return "".join(f", {a}" for a in ats)
+def kw(rng, word):
+    """a keyword in random letter case (Fortran is case-insensitive; the model sees the keyword, not its spelling)"""
+    return rng.choice([word, word, word.upper(), word.capitalize(), word[0] + word[1:].upper()])
+
+
+def _attrs(ats, rng=None):
+    return "".join(f", {kw(rng, a) if rng else a}" for a in ats)
 
 
 def render_tbody(tb, targets, rng, ind):
@@ -83,20 +88,23 @@ def render_tbody(tb, targets, rng, ind):
         if (t[0] == "comp" and i + 1 < len(tb) and tb[i + 1][0] == "comp" and tb[i + 1][2] == t[2]
                 and rng.random() < 0.3):
             skip.add(i + 1)
-            out.append(f"{ind}integer{_attrs(t[2])} :: {t[1]}, {tb[i + 1][1]}")
+            out.append(f"{ind}{kw(rng, 'integer')}{_attrs(t[2], rng)} :: {t[1]}, {tb[i + 1][1]}")
             continue
         if t[0] == "tdefault":
-            out.append(ind + t[1])
+            out.append(ind + kw(rng, t[1]))
         elif t[0] == "comp":
             typ = rng.choice(["integer", "real", "logical", "character(len=4)"])
             dim = rng.choice(["", "", "(3)"])
-            out.append(f"{ind}{typ}{_attrs(t[2])} :: {t[1]}{dim}")
+            out.append(f"{ind}{typ}{_attrs(t[2], rng)} :: {t[1]}{dim}")
         elif t[0] == "tcontains":
-            out.append(ind[:-2] + "contains")
+            out.append(ind[:-2] + kw(rng, "contains"))
         elif t[0] == "bind":
             tgt = rng.choice(targets) if targets else t[1] + "_impl"
-            mid = rng.choice(["", ", nopass"])
-            out.append(f"{ind}procedure{mid}{_attrs(t[2])} :: {t[1]} => {tgt}")
+            mid = rng.choice(["", ", nopass", ", NOPASS"])
+            ats = _attrs(t[2], rng)
+            # the access attribute before or after the other attribute
+            both = rng.choice([mid + ats, ats + mid])
+            out.append(f"{ind}{kw(rng, 'procedure')}{both} :: {t[1]} => {tgt}")
     return out
 
 
@@ -128,34 +136,34 @@ def render_case(case, rng, docs=True):
                 and body[i + 1][3] == st[3] and rng.random() < 0.35):
             skip.add(i + 1)
             typ = rng.choice(["integer", "real", "logical"])
-            out.append(f"  {typ}{_attrs(st[3])} :: {st[2]}, {body[i + 1][2]}" + rng.choice(["", "(2)"]))
+            out.append(f"  {typ}{_attrs(st[3], rng)} :: {st[2]}, {body[i + 1][2]}" + rng.choice(["", "(2)"]))
             continue
         if k == "default":
-            out.append("  " + rng.choice([st[1], st[1].upper(), st[1].capitalize()]))
+            out.append("  " + kw(rng, st[1]))
         elif k == "access":
-            kw = rng.choice([st[1], st[1].upper()])
+            word = kw(rng, st[1])
             sep = rng.choice([" :: ", " ", "::", " ::"])
-            out.append(f"  {kw}{sep}" + rng.choice([", ", ","]).join(st[2]))
+            out.append(f"  {word}{sep}" + rng.choice([", ", ","]).join(st[2]))
         elif k == "var":
             ats = list(st[3])
             if st[1]:
                 pos = rng.randrange(len(ats) + 1)
                 parts = ats[:pos] + ["parameter"] + ats[pos:]
-                out.append("  integer" + _attrs(parts) + f" :: {st[2]} = {rng.choice(['1', '42', '7'])}")
+                out.append("  integer" + _attrs(parts, rng) + f" :: {st[2]} = {rng.choice(['1', '42', '7'])}")
             else:
                 typ = rng.choice(["integer", "real", "logical", "complex", "character(len=8)"])
                 extra = rng.choice([[], [], ["save"], ["target"]])
                 pos = rng.randrange(len(ats) + 1)
                 parts = ats[:pos] + extra + ats[pos:]
                 if parts or rng.random() < 0.7:
-                    out.append(f"  {typ}{_attrs(parts)} :: {st[2]}" + rng.choice(["", "", "(3)"]))
+                    out.append(f"  {typ}{_attrs(parts, rng)} :: {st[2]}" + rng.choice(["", "", "(3)"]))
                 else:
                     out.append(f"  {typ} {st[2]}")
             if docs and rng.random() < 0.4:
                 out.append(f"    !! doc of {st[2]}")
         elif k == "type":
             if st[2] or rng.random() < 0.6:
-                out.append(f"  type{_attrs(st[2])} :: {st[1]}")
+                out.append(f"  {kw(rng, 'type')}{_attrs(st[2], rng)} :: {st[1]}")
             else:
                 out.append(f"  type {st[1]}")
             if docs and rng.random() < 0.4:
